@@ -13,6 +13,7 @@ import (
 func init() { Registry["C08"] = c08 }
 
 func c08(r *Report) {
+	defer c08Seed5(r)
 	p := r.P
 	defer c08Audit4(r)
 	const dag = "network/dag"
